@@ -35,7 +35,7 @@ def cases(draw, max_n=40):
         if subj == "MACD" and cfg["kw"]["fast_period"] >= cfg["kw"]["slow_period"]:
             cfg["kw"]["slow_period"] = cfg["kw"]["fast_period"] + 1
         cfg["kw"].pop("round_value", None)
-        tf = draw(st.sampled_from((None, None, "T5", "T10")))
+        tf = draw(st.sampled_from((None, None, "T5", "T10", "T1")))
         key = (subj, tf)
         if key in names:
             continue
@@ -45,9 +45,14 @@ def cases(draw, max_n=40):
     rows = draw(gs.price_rows(n, base=draw(st.sampled_from((20, 100)))))
     step = draw(st.sampled_from((60, 60, 150, 300)))
     start = gs.BASE_DAY + draw(st.sampled_from((0, 60, 90)))
-    stream = [[start + i * step] + r for i, r in enumerate(rows)]
+    fill = draw(st.integers(0, 2)) == 0
+    t, stream = start, []
+    for r in rows:
+        stream.append([t] + r)
+        # with fill, gaps of a few buckets make a filled timeframe hold MORE candles than the base list
+        t += step if not fill else draw(st.sampled_from((step, step, step, 4 * step, 9 * step)))
     preload = min(n, draw(st.sampled_from((0, 0, 1, n // 2, n))))
-    return {"members": members, "stream": stream, "preload": preload, "chunks": draw(gs.chunking(n - preload))}
+    return {"members": members, "stream": stream, "fill": fill, "preload": preload, "chunks": draw(gs.chunking(n - preload))}
 
 
 def run_case(case) -> Result:
@@ -61,7 +66,7 @@ def run_case(case) -> Result:
         inds = [build_indicator(m["cfg"], **({"timeframe": m["tf"]} if m["tf"] else {})) for m in case["members"]]
         if len({i.name for i in inds}) != len(inds):
             return Result([], False, ["name_clash"])
-        hx = Hexital("c20", mk_candles(rows[:pre]), inds)
+        hx = Hexital("c20", mk_candles(rows[:pre]), inds, timeframe_fill=bool(case.get("fill")))
         hx.calculate()
         rest = rows[pre:]
         for a, b in split_chunks(len(rest), case.get("chunks", [])):
@@ -80,6 +85,8 @@ def run_case(case) -> Result:
         n = len(cs)
         if m["tf"]:
             labels.append("extra_timeframe")
+            if len(cs) > len(hx.candles()):
+                labels.append("timeframe_longer_than_base")
         sample = next((c.indicators.get(ind.name) for c in reversed(cs) if isinstance(c.indicators.get(ind.name), dict)), None)
         names = [ind.name] + ([f"{ind.name}.{f}" for f in sample] if sample else [])
         try:
